@@ -388,7 +388,9 @@ PROPERTIES["C12"] = {
 
 # ------------------------------------------------------------------------------------------ C11 (MIR engine; partial: in-process reproducibility and clamping)
 PROPERTIES["C11"] = {
-    "harnesses": [MH("c11_repro_" + n, inputs=inp, bounds="PackageBuilder::new .. add_data .. build() .. Package::write, all from MIR; two runs = same inputs under two independent environments", timeout=to, tier=tier,
+    "harnesses": [MH("c11_sign_%d" % k, inputs="%d file(s); source date, mtimes, contents symbolic; stub signer recording the time stamp it is given" % k, timeout=900,
+                     bounds="build_and_sign: the signature time stamp handed to the signer is at most the source date", covers_unsat_ok=["package built and signed", "signer consulted"]) for k in (1, 2)]
+    + [MH("c11_repro_" + n, inputs=inp, bounds="PackageBuilder::new .. add_data .. build() .. Package::write, all from MIR; two runs = same inputs under two independent environments", timeout=to, tier=tier,
                      covers_unsat_ok=["package built", "more than one environment explored"])
                   for (n, inp, to, tier) in (("root1", "one root-owned file: content byte, mtime, source date symbolic", 600, "quick"),
                                              ("user1", "one file owned by a:g: content byte, mtime, source date symbolic", 600, "quick"),
@@ -398,8 +400,10 @@ PROPERTIES["C11"] = {
                                              ("late_sd", "two files, the source date set after the files were added", 900, "quick"),
                                              ("dirs3", "three files in three directories at different depths, one owned by a:g", 3600, "thorough"),
                                              ("sym2", "two files whose owner and group names are symbolic lower-case letters (every combination)", 7200, "thorough"))],
-    "bounds": "up to three files with one content byte each; no compression; unsigned build; user/group names literal (quick) or one symbolic letter (thorough); source date, modification times symbolic",
-    "outside": "across processes (the model makes every HashSet iteration order and every clock reading arbitrary, which covers what a fresh process changes for this code, but TZ, working directory and the "
+    "bounds": "up to three files with one content byte each; no compression; user/group names literal (quick) or one symbolic letter (thorough); source date, modification times symbolic; "
+              "build_and_sign with a stub signer for the signature time stamp",
+    "outside": "the bytes of signed packages (the signature is real OpenPGP: after the signer was handed its time stamp the harness cuts at SignatureHeaderBuilder::add_openpgp_signature); "
+               "across processes (the model makes every HashSet iteration order and every clock reading arbitrary, which covers what a fresh process changes for this code, but TZ, working directory and the "
                "file system are not modelled); signing (real OpenPGP); compressed payloads (FFI); larger configurations",
     "assumptions": A_MIR + ["environment stub: Timestamp::now returns an arbitrary instant, fresh per call, not earlier than the source date (a source date lies in the past; with a future source date the build time is the clock by design)",
                             "environment stub: iterating a HashSet/HashMap yields its elements in an arbitrary permutation chosen by the solver, independently per iteration (RandomState)",
@@ -422,10 +426,12 @@ PROPERTIES["C06"] = {
        MH("c06_deps_all", inputs="two dependencies per kind (eight kinds): name, version 1 symbolic character, flags any u32", bounds="dependency setters vs accessors (in order, among the builder's own entries)", timeout=900),
        MH("c06_with_file_inherit", inputs="stubbed source file: content byte, st_mode (any regular-file mode), mtime symbolic", bounds="with_file with the mode inherited from the source file", timeout=600),
        MH("c06_with_file_explicit", inputs="stubbed source file plus an explicit mode (any permission bits)", bounds="with_file with an explicit mode", timeout=600),
+       MH("c06_verify_script", inputs="verify_script(Scriptlet): text 2 symbolic characters, flags any u32, one-word interpreter", bounds="the %verifyscript tags of the built header (no accessor exists)", timeout=600),
        MH("c06_files_1", inputs="one file: permission bits, flags, mtime, content byte, source date symbolic", bounds="add_data vs get_file_entries", timeout=900),
-       MH("c06_files_2", inputs="two files: permission bits, flags, mtimes, content bytes, source date symbolic", bounds="add_data vs get_file_entries", timeout=1800)],
+       MH("c06_files_2", inputs="two files: permission bits, flags, mtimes, content bytes, source date symbolic", bounds="add_data vs get_file_entries", timeout=1800)]
+    + [MH("c06_changelog_%d" % n, inputs="%d changelog entries: author, text 1 symbolic character, time any u32" % n, bounds="add_changelog_entry vs get_changelog_entries (order kept)", timeout=600) for n in (0, 1, 2, 3)],
     "bounds": "strings of 1 symbolic printable ASCII character (scriptlet text 2); every u32 for epoch and flag words; up to two files with one content byte; no compression; unsigned",
-    "outside": "longer, empty, multi-line and multi-byte strings; changelog entries; verify_script (no accessor exists); capabilities and link targets of files; every compression type; signing; "
+    "outside": "longer, empty, multi-line and multi-byte strings; capabilities and link targets of files; every compression type; signing; "
                "the write -> parse leg (C01/C05 decide that parsing returns what was written)",
     "assumptions": A_MIR + _A_BUILD,
     "technique": None,
